@@ -14,6 +14,8 @@ ASSUME = [
     "announcing its uploads; for the others only safety (only after own success, at most once, unsubscribed afterwards)",
     "filesystem services are created both on a fresh directory (the address becomes known with the reply) and on a directory Tor has "
     "served before (hostname file present from the start: events before the reply are then attributable and count)",
+    "FAILED events that report a failed descriptor fetch (a directory no upload was announced to, REASON=NOT_FOUND), for either "
+    "service, are interleaved; they decide nothing",
     "authenticated ephemeral services (which match uploads by a permanent id derived from an RSA key) are not replayed",
     "every fourth creation is started right after an earlier service's creation completed on the same connection, while the SETEVENTS "
     "that gives up HS_DESC for it is still unanswered (it is answered at the first step); in another quarter the application has an "
@@ -36,7 +38,9 @@ def rand_script(rng):
             continue
         s, d = rng.choice(["me", "me", "other"]), rng.choice(dirs)
         st = up[(s, d)]
-        if st == "none":
+        if st == "none" and rng.random() < 0.2:
+            script.append(dict(a="FetchFailed", s=s, d=d))      # a failed fetch of the descriptor: not an upload
+        elif st == "none":
             up[(s, d)] = "started"
             script.append(dict(a="Upload", s=s, d=d))
         elif st == "started":
